@@ -401,6 +401,7 @@ static int gen_seqs(char seqs[][MAXOPS + 1], int maxops)
 int main(int argc, char **argv)
 {
     int T = 2, maxops = 2, maxcap = 2, pshard = 0, pnshards = 1;
+    int maxtotal = 1000, bigbound = -1; /* programs with more than maxtotal operations are explored with bound bigbound */
     const char *only = NULL;
     struct vs_options opt;
     vs_default_options(&opt);
@@ -414,6 +415,8 @@ int main(int argc, char **argv)
         else if (!strcmp(argv[i], "--maxcap")) maxcap = atoi(argv[i + 1]);
         else if (!strcmp(argv[i], "--prog-shard")) sscanf(argv[i + 1], "%d/%d", &pshard, &pnshards);
         else if (!strcmp(argv[i], "--prog")) only = argv[i + 1];
+        else if (!strcmp(argv[i], "--maxtotal")) maxtotal = atoi(argv[i + 1]);
+        else if (!strcmp(argv[i], "--bigbound")) bigbound = atoi(argv[i + 1]);
     }
     static char onlybuf[256];
     if (opt.replay && strchr(opt.replay, '@')) {
@@ -458,6 +461,11 @@ int main(int argc, char **argv)
                 struct vs_stats st;
                 memset(&st, 0, sizeof(st));
                 struct vs_options o = opt;
+                int total = 0;
+                for (int t = 0; t < T; t++)
+                    total += g_p.nops[t];
+                if (total > maxtotal && bigbound >= 0 && !opt.replay)
+                    o.bound = bigbound;
                 o.deadline_s = opt.deadline_s - (v_now() - t0);
                 if (o.deadline_s < 0.5 && !opt.replay) {
                     capped++;
@@ -476,7 +484,7 @@ int main(int argc, char **argv)
                     progs_multi++;
                 if (st.capped)
                     capped++;
-                if (st.bound_completed < min_bound)
+                if (st.bound_completed < min_bound && !(total > maxtotal && bigbound >= 0))
                     min_bound = st.bound_completed;
             }
         int k = T - 1;
